@@ -5,7 +5,7 @@ import os
 ID = "C10"
 MODE = "bfs"
 RULE = (
-    "state = history of named-paths runs; operation = (group in {g1,g2}) x (new CsvPaths | reuse the live instance) x (run method) x "
+    "state = history of named-paths runs; operation = (group in {g1, g2, g1 addressed as 'g1#two'}) x (new CsvPaths | reuse the live instance) x (run method) x "
     "(clock: stay in the same second | next instant | skip one instant, over a fixed ladder of instants that crosses 12:59:59->13:00:00 "
     "and midnight); every (state, operation) is replayed on the real CsvPaths in a fresh sandbox under a virtual clock; invariants "
     "after EVERY run: exactly one new run directory appeared, under archive/<its own group>/; every file of every earlier run is "
@@ -15,8 +15,8 @@ RULE = (
     "on the live instance)"
 )
 BOUNDS = {
-    "quick": "2 groups x {new,reuse} x {collect_paths, collect_by_line} x 3 clock steps = 24 operations, all histories to depth 3; plus all same-second chains of 4 and 5 runs over 4 operations",
-    "thorough": "same 24 operations to depth 4, plus all six run methods (72 operations) to depth 2",
+    "quick": "3 group addresses (g1, g2, g1#two) x {new,reuse} x {collect_paths, collect_by_line} x 3 clock steps = 36 operations, all histories to depth 3; plus all same-second chains of 4 and 5 runs over 4 operations",
+    "thorough": "same 36 operations to depth 4, plus all six run methods (72 operations) to depth 2",
 }
 DEPTH = {"quick": 3, "thorough": 4}
 BUDGET = {"quick": 500, "thorough": 3400}
@@ -44,12 +44,12 @@ LADDER = _ladder()
 METHODS_Q = ["collect_paths", "collect_by_line"]
 METHODS_ALL = ["collect_paths", "fast_forward_paths", "next_paths", "collect_by_line", "fast_forward_by_line", "next_by_line"]
 GROUPS = {"g1": ["~ id: one ~ $[*][yes()]", '~ id: two ~ $[*][#a == "1"]'], "g2": ["~ id: three ~ $[*][yes()]"]}
-FIRST_ID = {"g1": "one", "g2": "three"}
+FIRST_ID = {"g1": "two", "g2": "three"}  # a member present in every run of the group (g1#two runs only member two)
 
 
 def ops(tier):
     o = []
-    for g in ("g1", "g2"):
+    for g in ("g1", "g2", "g1#two"):
         for inst in ("new", "reuse"):
             for m in METHODS_Q:
                 for c in (0, 1, 2):
@@ -63,6 +63,7 @@ def extra_histories(tier):
     import itertools
 
     same = [[g, inst, "collect_paths", 0] for g in ("g1", "g2") for inst in ("new", "reuse")]
+    same.append(["g1#two", "new", "collect_paths", 0])
     hs = []
     for n in (4, 5):
         for t in itertools.product(same, repeat=n):
@@ -127,7 +128,8 @@ def run_history(hist):
     def bad(what, got, want):
         viol.append({"case": cstr, "diverge": f"{what}: got {got} expected {want}", "sig": what})
 
-    for g, inst, method, cstep in hist:
+    for gspec, inst, method, cstep in hist:
+        g = gspec.split("#")[0]
         if inst == "reuse" and cp is None:
             return {"disabled": True, "key": None, "viol": []}
         idx += cstep
@@ -149,7 +151,7 @@ def run_history(hist):
                 before_trees[(rg, rd)] = canon.raw_tree(os.path.join(root, "archive", rg, rd))
         try:
             with sandbox.capture_stdout():
-                _run(cp, method, g)
+                _run(cp, method, gspec)
         except Exception as e:  # noqa: BLE001
             bad("run raised", f"{type(e).__name__}: {str(e)[:120]}", None)
         live_groups.append(g)
